@@ -215,6 +215,11 @@ def task_lemma(kind, k, what):
         val0 = [C.ostr(I, "val0_%d" % i) for i in range(k)]
         val1 = [C.ostr(I, "val1_%d" % i) for i in range(k)]
         fmt1 = [C.sstr(I, "fmt1_%d" % i) for i in range(k)]
+        if kind == "BLOB":
+            # (P) for BLOBs, proved by C07: the published content is the base64 encoding of the payload -- valid base64 (assumed contract of base64)
+            from pyvc.stdlib_models import b64valid
+            for v_ in val0 + val1:
+                run.assume(b64valid(z3.If(is_none(v_.term), z3.StringVal(""), smt.get_s(v_.term))))
         qd, qv, qe = _val(I, "qd"), _val(I, "qv"), _val(I, "qe")
         kindname = VStr(z3.StringVal(kind + "Vector"))
         ABS = C.ABSENT
